@@ -34,7 +34,7 @@ RULE = (
 )
 ASSUMPTIONS = ["explicit names for leaves and materializations (generated names are intentionally unique)"]
 
-KINDS = ("build", "build", "build", "compile", "execute", "process", "diag", "hash", "rebuild")
+KINDS = ("build", "build", "build", "compile", "compile", "execute", "process", "diag", "hash", "rebuild", "optcall", "optcall")
 
 
 def cfg(tier):
@@ -52,23 +52,29 @@ def budget(tier):
     return 2500 if tier == "quick" else 40000
 
 
+def cfg_sql(tier):
+    return Cfg(engines=(0,), max_ops=8 if tier == "quick" else 12, p_binary=0.3, avoid=frozenset(["D9", "D10", "D11"]), prelude=0.2)
+
+
 @st.composite
 def st_case(draw, tier):
-    universe, leaves, prog = draw(st_program(cfg(tier)))
+    universe, leaves, prog = draw(st_program(cfg_sql(tier) if draw(st.integers(0, 2)) == 0 else cfg(tier)))
     n = len(list(walk(prog)))
     actions = [k for k in KINDS if k != "build"]
     steps = []
     for _ in range(n):
         steps.append(("build", 0))
         for _ in range(draw(st.sampled_from([0, 0, 1, 1, 2]))):
-            steps.append((draw(st.sampled_from(actions)), draw(st.integers(0, 50))))
+            steps.append((draw(st.sampled_from(actions)), draw(st.integers(0, 9999))))
     for _ in range(draw(st.integers(0, 3))):
-        steps.append((draw(st.sampled_from(actions)), draw(st.integers(0, 50))))
+        steps.append((draw(st.sampled_from(actions)), draw(st.integers(0, 9999))))
     return (universe, leaves, prog, tuple(steps))
 
 
 def strategy(tier):
-    return st_case(tier)
+    from vf.checks import c03
+
+    return st.one_of(st_case(tier), st_case(tier), st.tuples(st.just("opt"), c03.st_case(tier, p_mat=2)))
 
 
 def apply_with_mutable_args(node, operands, env):
@@ -96,9 +102,71 @@ def apply_with_mutable_args(node, operands, env):
     return apply_node(node, operands, env)
 
 
+def run_opt_case(body, stats, case):
+    """A base tree plus one final operation issued with every preferred-engine option combination (the generator of
+    C03): every returned relation must be hashable, and no call may change a relation obtained earlier."""
+    import itertools
+
+    from lsst.daf.relation import ColumnError, EngineError
+
+    from vf.checks import c03
+
+    universe, leaves, S, base, final, *rest = body
+    T = 1
+    third = ({0, 1, 2} - {S, T}).pop()
+    env = Env(leaves)
+    try:
+        rels = {}
+        try:
+            build_all(base, env, rels)
+        except BuildError as b:
+            if not (is_order_loss(b.exc) or isinstance(b.exc, (ColumnError, EngineError))):
+                raise Violation("build-raised", f"{fmt(b.node, leaves)}: {type(b.exc).__name__}: {b.exc}", sig=exc_sig(b.exc))
+            return
+        pool = [(fmt(n, leaves), rels[id(n)]) for n in walk(base) if id(n) in rels]
+        snaps = {id(r): snapshot(r) for _, r in pool}
+        root = rels[id(base)]
+        fixed_rel = env.leafrels[final[2][1]] if final[0] == "join" else None
+        if final[0] == "join":
+            combos = [dict(backtrack=b, transfer=t) for b in (False, True) for t in (False, True)]
+            prefs = [S]
+        else:
+            combos = [dict(backtrack=b, transfer=t, require_preferred_engine=r) for b in (False, True) for t in (False, True) for r in (False, True)]
+            prefs = [S, T, third]
+        for pref, opts in itertools.product(prefs, combos):
+            o = dict(opts)
+            if final[0] != "join":
+                o["preferred_engine"] = env.engines[pref]
+            label = f"{final[0]} preferred=E{pref} " + " ".join(f"{k}={v}" for k, v in opts.items()) + f" on {fmt(base, leaves)}"
+            try:
+                res = c03.issue(final, root, fixed_rel, env, o)
+            except Exception as e:
+                if is_order_loss(e) or isinstance(e, (ColumnError, EngineError)):
+                    res = None
+                else:
+                    raise Violation("optioned-call-raised", f"{label}: {type(e).__name__}: {str(e)[:200]}", sig=exc_sig(e))
+            if res is not None:
+                try:
+                    hash(res)
+                except TypeError as e:
+                    raise Violation("unhashable", f"hash() of {str(res)[:200]} raised {e}; built by {label}", sig=exc_sig(e))
+                if id(res) not in snaps:
+                    pool.append((label, res))
+                    snaps[id(res)] = snapshot(res)
+            for what, r in pool:
+                if snapshot(r) != snaps[id(r)]:
+                    raise Violation("relation-changed", f"an existing relation ({what}) changed after {label}: {str(r)[:200]}", after="optcall")
+            stats.c["step:optioned-call"] += 1
+        stats.mark_nontrivial(codec.digest(case), lambda: describe(case), cls=f"opt/S=E{S}/{final[0]}")
+    finally:
+        env.close()
+
+
 def run_case(case, stats):
     from lsst.daf.relation import ColumnError, Diagnostics, EngineError, sql
 
+    if case[0] == "opt":
+        return run_opt_case(case[1], stats, case)
     universe, leaves, prog, steps = case
     env = Env(leaves)
     try:
@@ -111,20 +179,37 @@ def run_case(case, stats):
         reinspected_after_eval = False
         proc = make_processor(env)
 
+        def nfmt(node):
+            return f"optioned call #{node[3]} on {nfmt(node[1])}" if node[0] == "optcall" else fmt(node, leaves)
+
+        expr_cols = {}
+
         def check_all(after):
             nonlocal reinspected_after_eval
+            # expression / predicate objects are shared between calls: what they declare must not drift either
+            from vf.core.expr import cols_e, cols_p
+
+            for key, obj in list(env.lib_cache.items()):
+                now = frozenset(obj.columns_required)
+                want = cols_e(key[1]) if key[0] == "e" else cols_p(key[1])
+                if now != want:
+                    raise Violation(
+                        "expression-object-changed",
+                        f"columns_required of the shared {type(obj).__name__} '{obj}' is {set(now)} after step {after}; the expression reads {set(want)}",
+                        after=after.split(" ")[0],
+                    )
             for node, rel in pool:
                 try:
                     h = hash(rel)
                 except TypeError as e:
-                    raise Violation("unhashable", f"hash() of {str(rel)[:200]} raised {e}; built by {fmt(node, leaves)}", sig=exc_sig(e))
+                    raise Violation("unhashable", f"hash() of {str(rel)[:200]} raised {e}; built by {nfmt(node)}", sig=exc_sig(e))
                 now = snapshot(rel)
                 if now != snaps[id(rel)]:
                     old = snaps[id(rel)]
                     what = [name for name, a, b in zip(("structure/columns/bounds/payload content", "str", "repr", "hash"), old, now) if a != b]
                     raise Violation(
                         "relation-changed",
-                        f"{what} of an existing relation changed after step {after}: {str(rel)[:200]} (built by {fmt(node, leaves)})",
+                        f"{what} of an existing relation changed after step {after}: {str(rel)[:200]} (built by {nfmt(node)})",
                         after=after.split(" ")[0],
                         what=what[0] if what else "",
                     )
@@ -163,7 +248,9 @@ def run_case(case, stats):
             else:
                 if not pool:
                     continue
-                node, rel = pool[arg % len(pool)]
+                # two thirds of the steps look at one of the three most recent relations
+                tsel = arg // 96
+                node, rel = pool[-1 - (tsel % min(3, len(pool)))] if tsel % 3 else pool[tsel % len(pool)]
                 label = f"{kind} {str(rel)[:80]}"
                 is_sql = isinstance(rel.engine, sql.Engine)
                 try:
@@ -193,12 +280,43 @@ def run_case(case, stats):
                     elif kind == "process":
                         proc.process(rel)
                         evaluated = True
+                    elif kind == "optcall":
+                        # one more factory call with preferred-engine options; an accepted result joins the pool
+                        from vf.core.expr import lib_e as _le
+
+                        cols = sorted(rel.columns, key=lambda t: t.qualified_name)
+                        which = arg % 4
+                        pe = env.engines[(arg // 4) % 3]
+                        bits = (arg // 12) % 8
+                        o = dict(preferred_engine=pe, backtrack=not (bits & 1), transfer=bool(bits & 2), require_preferred_engine=bits == 4)
+                        try:
+                            if which == 0 and cols:
+                                new = rel.with_only_columns({cols[(arg // 96) % len(cols)]}, **o)
+                            elif which == 1 and cols:
+                                new = rel.with_rows_satisfying(lib_p(("ge", ("ref", cols[(arg // 96) % len(cols)]), ("lit", 0))), **o)
+                            elif which == 2 and cols:
+                                from lsst.daf.relation import SortTerm
+
+                                new = rel.sorted([SortTerm(_le(("ref", cols[(arg // 96) % len(cols)])), bool(arg & 16))], **o)
+                            else:
+                                new = rel.without_duplicates(**o)
+                        except (ColumnError, EngineError):
+                            new = None
+                        except Exception as e:
+                            if not is_order_loss(e):
+                                raise Violation("optioned-call-raised", f"{type(e).__name__}: {str(e)[:200]} on {str(rel)[:120]} with {o}", sig=exc_sig(e))
+                            new = None
+                        if new is not None and id(new) not in snaps:
+                            pool.append((("optcall", node, which, arg), new))
+                            snaps[id(new)] = snapshot(new)
                     elif kind == "diag":
                         Diagnostics.run(rel)
                     elif kind == "hash":
                         hash(rel)
                         {rel: 1}
                     elif kind == "rebuild":
+                        if node[0] == "optcall":
+                            continue
                         rels2 = {}
                         try:
                             build_all(node, env, rels2)
@@ -215,7 +333,7 @@ def run_case(case, stats):
                     stats.c["step:db-error"] += 1
                 except TypeError as e:
                     if "unhashable" in str(e):
-                        raise Violation("unhashable", f"{kind} of {str(rel)[:200]} raised {e}; built by {fmt(node, leaves)}", sig=exc_sig(e))
+                        raise Violation("unhashable", f"{kind} of {str(rel)[:200]} raised {e}; built by {nfmt(node)}", sig=exc_sig(e))
                     stats.c["step:engine-refused-" + type(e).__name__] += 1
                 except Exception as e:
                     # evaluation steps may legitimately be refused (un-processed transfers, known compile defects);
@@ -230,7 +348,31 @@ def run_case(case, stats):
         env.close()
 
 
+EXHAUSTIVE_NOTE = "the base x final-operation grid of C03 (vf/checks/c03.py:grid_cases), every option combination: results hashed, earlier relations re-inspected"
+
+
+def exhaustive(tier, stats, shard, nshards, run):
+    from vf.checks import c03
+
+    for idx, body in enumerate(c03.grid_cases(tier)):
+        if idx % nshards != shard:
+            continue
+        case = ("opt", body)
+        try:
+            run(case)
+        except Violation as v:
+            v.case = case
+            raise
+        stats.c["grid_cases"] += 1
+
+
 def describe(case):
+    if case[0] == "opt":
+        from vf.checks import c03
+
+        d = c03.describe(case[1])
+        d["kind"] = "base + final operation, all option combinations"
+        return d
     universe, leaves, prog, steps = case
     return describe_case(universe, leaves, prog, steps=[f"{k}:{a}" for k, a in steps])
 
